@@ -940,6 +940,12 @@ impl Mp4TrackWriter {
             ));
         }
 
+        // Sample numbers and the sample counts of every table are 32 bits wide, and
+        // `sample_id` is always one more than the number of samples written.
+        if self.sample_id == u32::MAX {
+            return Err(Error::InvalidData("track cannot hold more samples"));
+        }
+
         // The sample size table holds 32-bit sizes: a larger sample cannot be described, and
         // recording its truncated length would make every later sample read from the wrong place.
         let sample_size = u32::try_from(sample.bytes.len())
